@@ -174,3 +174,55 @@ for _n, (_k1, _u1, _k2, _u2) in enumerate((
                         bound='history [%s with %s; %s with %s] under every installed-locale configuration (16 cases chosen by the solver) on a stub '
                               'locale module: each call returns or raises ElementPathError, the collation lock is free afterwards (so the next '
                               'call cannot block) and the second call answers as it does alone' % (_k1, _u1, _k2, _u2)), globals())
+
+
+# --- added after round-3 seeded changes: code points at the end of the code space; XPath 3.1 lookups evaluated without a focus check -------
+
+from harness.common import P31 as _P31, P2 as _P2, XPathContext as _Ctx, L as _L  # noqa: E402
+_T_CP = {'31': _P31.parse('codepoints-to-string(($a, $b))'), '2': _P2.parse('codepoints-to-string($a)'),
+         's2c': _P31.parse('string-to-codepoints(codepoints-to-string($a))')}
+
+
+@ob(budget=60, tbudget=400, kind='hunt', bound='(string model keeps forking: bug-hunting) a: every integer within 16 of the ends of the code space (negative, around 0x10FFFF / 0x110000) or of the surrogate block: '
+                      'codepoints-to-string returns or raises ElementPathError (XPath 2.0 and 3.1)',
+    funcs=['elementpath/xpath2/_xpath2_functions.py:codepoints-to-string', 'elementpath/helpers.py:is_xml_codepoint'])
+def codepoints_to_string_any_integer(a: int) -> bool:
+    """
+    pre: -4 <= a <= 12 or 0x10FFF0 <= a <= 0x110010 or 0xD7F8 <= a <= 0xE008
+    post: _
+    """
+    for key, v in (('31', {'a': a, 'b': 65}), ('2', {'a': a}), ('s2c', {'a': a})):
+        try:
+            _T_CP[key].evaluate(_Ctx(item=1, variables=v))
+        except ElementPathError:
+            pass
+    return True
+
+
+LOOKUP_SOURCES = ('?a', '?1', '?*', '(?a)', 'string(?a)', '?a + 1', 'if (?ok) then 1 else 2', '-?a', '?a = 1', 'count(?*)', '(?a, ?b)', '?a[1]', '?a?b',
+                  'for $x in ?* return $x', '. ! ?a', '.[?a]', 'map{"a": 1}?a', '[1, 2]?*', '?a instance of xs:integer', 'not(?a)', '?(1 + 1)', '?("a")',
+                  'some $x in ?* satisfies $x', 'let $m := ?a return $m', '?a => count()', '$m?a', '$m?*', '$m ! ?a')
+
+
+@ob(budget=200, bound='28 XPath 3.1 sources built around unary / postfix lookups (index chosen by the solver) parsed on a fresh parser, then '
+                      'evaluated without a context, with an integer item (value symbolic) and with a map / array item: every step returns '
+                      'or raises ElementPathError',
+    funcs=['elementpath/xpath31/_xpath31_operators.py:LookupOperatorToken', 'elementpath/xpath1/xpath1_parser.py:parse (static evaluation)'])
+def lookup_sources_only_epe(i: int, x: int) -> bool:
+    """
+    pre: 0 <= i <= 27
+    post: _
+    """
+    src = LOOKUP_SOURCES[[k for k in range(28) if k == i][0]]
+    try:
+        tok = _P31.__class__().parse(src)
+    except ElementPathError:
+        return True
+    m = _P31.parse('map{"a": map{"b": 1}, "ok": true(), 1: 2}').evaluate(_Ctx(item=1))
+    arr = _P31.parse('[1, [2, 3]]').evaluate(_Ctx(item=1))
+    for ctx in (None, _Ctx(item=x, variables={'m': m}), _Ctx(item=m, variables={'m': arr}), _Ctx(item=arr, variables={'m': x})):
+        try:
+            tok.evaluate(ctx)
+        except ElementPathError:
+            pass
+    return True
